@@ -12,7 +12,7 @@ def run(chk, replay=None):
         if v.get('v') != 'ok':
             chk.disagreement(replay, v, rp)
         return
-    chk.rule = ('one case per transition of NixVersion (BFS, exhaustive for version cube lib+-2 in every component plus extremes, '
+    chk.rule = ('one case per transition of NixVersion (BFS, exhaustive for version cube lib+-2 (thorough: +-3) in every component plus extremes and packed-collision triples, '
                 '3 modes, Force on/off, up to 2 opens); non-trivial = Open step on a file whose version attribute was rewritten; '
                 'plus one case per ordered pair of version triples for the comparison operators')
     def lines():
@@ -23,7 +23,7 @@ def run(chk, replay=None):
     recs, verdicts = rp.run(lines())
     chk.absorb(recs, verdicts, rp)
     # comparison operators: one case per pair
-    run2 = vcheck.TlcRun('MC_NixVersionCmp', workers=8)
+    run2 = vcheck.TlcRun('MC_NixVersionCmp_t' if chk.thorough else 'MC_NixVersionCmp', workers=8)
     recs, verdicts = rp.run(r for r in run2)
     run2.require_ok()
     chk.note_tlc(run2)
